@@ -297,7 +297,7 @@ func ProjectShape(x any) Node {
 		return Node{"t": "stk", "k": k, "paren": s.IsParen(), "e": kids}
 	}
 	if c, ok := stackage.ConvertCondition(x); ok {
-		return Node{"t": "cnd", "kw": Tokenize(c.Keyword()), "op": opID(c.Operator()), "ex": ProjectShape(c.Expression())}
+		return Node{"t": "cnd", "kw": Tokenize(c.Keyword()), "op": opID(c.Operator()), "paren": c.IsParen(), "ex": ProjectShape(c.Expression())}
 	}
 	return Node{"t": "leaf", "v": leafTokens(x)}
 }
@@ -355,10 +355,22 @@ func init() {
 		// sprinkle nested pattern stacks and conditions holding them
 		for i := range kids {
 			if k, _ := kids[i].(Node); k != nil && k["t"] == "leaf" && g.rng.Intn(6) == 0 {
+				sub := pat()
+				// a second level below it, again directly or through a Condition
+				sk := sub["e"].([]any)
+				for j := range sk {
+					if k2, _ := sk[j].(Node); k2 != nil && k2["t"] == "leaf" && g.rng.Intn(5) == 0 {
+						if g.rng.Intn(2) == 0 {
+							sk[j] = pat()
+						} else {
+							sk[j] = Node{"t": "cnd", "form": g.form(), "kw": []any{"k"}, "op": "Eq", "ex": pat(), "paren": false, "nspad": false, "enc": []any{}}
+						}
+					}
+				}
 				if g.rng.Intn(2) == 0 {
-					kids[i] = pat()
+					kids[i] = sub
 				} else {
-					kids[i] = Node{"t": "cnd", "form": g.form(), "kw": []any{"k"}, "op": "Eq", "ex": pat(), "paren": false, "nspad": false, "enc": []any{}}
+					kids[i] = Node{"t": "cnd", "form": g.form(), "kw": []any{"k"}, "op": "Eq", "ex": sub, "paren": false, "nspad": false, "enc": []any{}}
 				}
 			}
 		}
@@ -398,7 +410,7 @@ func init() {
 
 func (g *treeGen) revStack(depth int) Node {
 	n := Node{"t": "stk", "k": []string{"AND", "OR", "NOT", "LIST", "AND", "OR"}[g.rng.Intn(6)], "form": "native", "paren": g.rng.Intn(4) == 0, "fold": false,
-		"nspad": false, "lonce": false, "sym": []any{}, "delim": []any{}, "enc": []any{}, "neg": false, "fwd": false,
+		"nspad": false, "lonce": false, "sym": []any{}, "delim": []any{}, "enc": []any{}, "neg": g.rng.Intn(4) == 0, "fwd": g.rng.Intn(3) == 0,
 		"mtx": g.rng.Intn(3) == 0, "cap": 0}
 	w := []int{0, 1, 1, 1, 2, 2, 3}[g.rng.Intn(7)]
 	kids := []any{}
